@@ -39,10 +39,14 @@ def serialize_json(
     serialize = partial(
         _serialize_element, object_refs=True, definitions=definitions
     )
-    # The primary element needs its own definition if others refer to it.
+    # The primary element needs its own definition if a definition refers
+    # to it.
     referenced = [
         child
-        for element in (*elements[1:], *(definitions or {}).values())
+        for element in (
+            *(item for item in object_classes if item is not primary),
+            *(definitions or {}).values(),
+        )
         for child in get_children(element)
     ]
     primary_schema = serialize(primary)
